@@ -552,6 +552,15 @@ func (dbPT *DBPTInfo) NewMergeSetIndex(rp string, timeRangeInfo *meta.ShardTimeR
 		} else {
 			dbPT.indexBuilder[indexID] = indexBuilder
 			dbPT.indexBuilder[indexID].Relations[uint32(index.MergeSet)] = indexRelation
+			// SetDelMergeSetForEachMergeSet wires the indexes that exist when the policy's deleted-series table is
+			// opened or created; an index created afterwards must consult that table too
+			if delBuilder := dbPT.delIndexBuilderMap[rp]; delBuilder != nil {
+				delMergeSet, isDel := delBuilder.GetPrimaryIndex().(*tsi.MergeSetIndex)
+				curMerge, isCur := primaryIndex.(*tsi.MergeSetIndex)
+				if isDel && isCur {
+					curMerge.SetDeleteMergeSet(delMergeSet)
+				}
+			}
 		}
 		err = indexBuilder.Open()
 	}
